@@ -76,9 +76,10 @@ Section Values.
     cdec : prim -> dec pv;                    cenc : prim -> enc pv;     (* Compact<prim> *)
     ldec : dec N;                             lenc : enc N;              (* length prefix *)
     bdec : shape -> shape -> dec bv;          benc : shape -> shape -> enc bv; (* store, order *)
-    (* an external type (substituted / prelude): head tokens, codecs of its arguments *)
-    odec : tokens -> list (dec val) -> dec val;
-    oenc : tokens -> list (enc val) -> enc val }.
+    (* an external type (substituted / prelude): inside [Compact<..>]?, head tokens, codecs
+       of its arguments *)
+    odec : bool -> tokens -> list (dec val) -> dec val;
+    oenc : bool -> tokens -> list (enc val) -> enc val }.
 
   Record prims_ok (P : prims) : Prop := mk_prims_ok {
     ok_prim : forall p, rt (pdec P p) (penc P p);
@@ -86,8 +87,8 @@ Section Values.
     ok_len : rt (ldec P) (lenc P);
     ok_bits : forall st or, rt (bdec P st or) (benc P st or);
     (* an external type round-trips whenever its arguments do *)
-    ok_opaque : forall head (ds : list (dec val)) (es : list (enc val)),
-        Forall2 rt ds es -> rt (odec P head ds) (oenc P head es) }.
+    ok_opaque : forall c head (ds : list (dec val)) (es : list (enc val)),
+        Forall2 rt ds es -> rt (odec P c head ds) (oenc P c head es) }.
 
   (** for the converse direction (the encoder's output decodes) *)
   Record prims_rev (P : prims) : Prop := mk_prims_rev {
@@ -95,13 +96,13 @@ Section Values.
     rev_compact : forall p, tr (cenc P p) (cdec P p);
     rev_len : tr (lenc P) (ldec P);
     rev_bits : forall st or, tr (benc P st or) (bdec P st or);
-    rev_opaque : forall head (es : list (enc val)) (ds : list (dec val)),
-        Forall2 tr es ds -> tr (oenc P head es) (odec P head ds) }.
+    rev_opaque : forall c head (es : list (enc val)) (ds : list (dec val)),
+        Forall2 tr es ds -> tr (oenc P c head es) (odec P c head ds) }.
 
   (** only for the depth-monotonicity lemma: an external decoder uses the decoders of its
       arguments as black boxes, so it accepts more when they do *)
   Definition prims_mono (P : prims) : Prop :=
-    forall head ds ds', Forall2 dec_le ds ds' -> dec_le (odec P head ds) (odec P head ds').
+    forall c head ds ds', Forall2 dec_le ds ds' -> dec_le (odec P c head ds) (odec P c head ds').
 
   (** ** generic combinators *)
   Definition dmap {A B} (f : A -> B) (d : dec A) : dec B :=
@@ -159,13 +160,15 @@ Section Values.
     Variable P : prims.
 
     (** ** the decoder.  [c] = "inside [Compact<..>]": a primitive is read with the compact
-        codec, a single-field struct wrapper (CompactAs) is looked through, anything else
-        has no compact encoding.
+        codec, a single-field struct wrapper (CompactAs) is looked through, the unit tuple
+        takes no bytes, an external type uses its own compact codec, anything else has no
+        compact encoding.
         - [SStruct]: the fields in order (names and the [boxed] flag are not on the wire);
         - [SEnum]: one index byte, then the fields of the first variant with that index;
         - [SSeq]: length prefix, then that many elements; [SArr n]: [n] elements;
         - [SBits]: the bit-sequence codec of the (completely unfolded) store / order;
-        - [SOpaque]: the external codec applied to the decoders of the arguments;
+        - [SOpaque]: the external codec (told whether it sits inside [Compact<..>]) applied to
+          the decoders of the arguments;
         - [SCut]: the unfolding depth is exhausted - nothing decodes. *)
     Fixpoint decode_c (c : bool) (sh : shape) {struct sh} : dec val :=
       match sh with
@@ -181,7 +184,12 @@ Section Values.
       | SArr n a =>
           if c then fun _ => None else dmap VSeq (dec_rep (decode_c false a) (N.to_nat n))
       | STuple l =>
-          if c then fun _ => None else dmap VTuple (dec_all (map (decode_c false) l))
+          if c then
+            match l with
+            | [] => fun b => Some (VTuple [], b)           (* Compact<()>: nothing on the wire *)
+            | _ => fun _ => None
+            end
+          else dmap VTuple (dec_all (map (decode_c false) l))
       | SBits st or =>
           if c then fun _ => None
           else if cutfree st && cutfree or then dmap VBits (bdec P st or) else fun _ => None
@@ -206,8 +214,7 @@ Section Values.
                      | None => None                       (* unknown variant index *)
                      end
                  end
-      | SOpaque head args =>
-          if c then fun _ => None else odec P head (map (decode_c false) args)
+      | SOpaque head args => odec P c head (map (decode_c false) args)
       | SCut => fun _ => None
       end.
 
@@ -240,7 +247,11 @@ Section Values.
                  | _ => None
                  end
       | STuple l =>
-          if c then fun _ => None
+          if c then
+            match l with
+            | [] => fun v => match v with VTuple [] => Some [] | _ => None end
+            | _ => fun _ => None
+            end
           else fun v => match v with
                         | VTuple vs => enc_all (map (encode_c false) l) vs
                         | _ => None
@@ -275,8 +286,7 @@ Section Values.
                      end
                  | _ => None
                  end
-      | SOpaque head args =>
-          if c then fun _ => None else oenc P head (map (encode_c false) args)
+      | SOpaque head args => oenc P c head (map (encode_c false) args)
       | SCut => fun _ => None
       end.
 
